@@ -37,7 +37,7 @@ SIM_SCENARIO(scen_c14, "c14", "C14", 6000000, 30000) {
     hx::Desc d;
     hx::draw_runtime_config(d);
     World world; W = &world;
-    int topo = (int)sim::draw(7, "topology");
+    int topo = (int)sim::draw(8, "topology");
     int nputters = (int)sim::draw_range(1, 3, "putters");
     int nmsg = (int)sim::draw_range(1, 12, "messages");
     int c1 = (int)sim::draw(3, "conc1"), c2 = (int)sim::draw(3, "conc2");      // 0 unlimited, 1 serial, 2
@@ -47,7 +47,7 @@ SIM_SCENARIO(scen_c14, "c14", "C14", 6000000, 30000) {
     world.points = sim::draw_of(ptsv, "points");
     bool do_cancel = sim::draw(6, "cancel") == 0;
     world.ns.resize(6);
-    static const char* const tn[] = {"chain", "broadcast+join", "buffer->rejecting", "input+limiter-feedback", "multifunction-split", "continue-fanin", "async"};
+    static const char* const tn[] = {"chain", "broadcast+join", "buffer->rejecting", "input+limiter-feedback", "multifunction-split", "continue-fanin", "async", "buffer->{limiter,rejecting}"};
     d.add(hx::fmt("flow graph topology=%s putters=%d messages=%d conc=(%d,%d) rejecting1=%d lightweight=%d points=%d cancel=%d", tn[topo], nputters, nmsg, c1, c2, (int)rej1, (int)lw, world.points, (int)do_cancel));
     d.publish();
     graph g;
@@ -167,6 +167,29 @@ SIM_SCENARIO(scen_c14, "c14", "C14", 6000000, 30000) {
         for (int r = 0; r < rounds; ++r) { world.idle_declared = false; start.try_put(continue_msg()); g.wait_for_all(); world.idle_declared = true;
             SIM_CHECK(world.live == 0, "oracle:wait-for-all", "wait_for_all() returned while bodies run");
             SIM_CHECK(fired == r + 1, "oracle:continue-node", "continue_node with two predecessors fired %d times after %d rounds", fired, r + 1); }
+        break;
+    }
+    case 7: {   // one buffering node feeds a reserving consumer (limiter_node pulls with reserve/consume) AND a pushing
+                // consumer (rejecting node): every message goes to exactly one of them, exactly once
+        int threshold = (int)sim::draw_range(1, 2, "threshold"), rc = (int)sim::draw_range(1, 2, "rej_conc"), kind = (int)sim::draw(3, "buffer_kind");
+        world.ns[0].limit = c1; world.ns[1].limit = 1; world.ns[2].limit = rc; world.ns[3].limit = 1;
+        int in_flight = 0, max_in_flight = 0;
+        limiter_node<int> lim(g, (size_t)threshold);
+        auto stage_body = [&](int m) { ++in_flight; if (in_flight > max_in_flight) max_in_flight = in_flight; enter(0, m); leave(0); return m; };
+        function_node<int, continue_msg, queueing> commit(g, serial, [&](int m) -> continue_msg { enter(1, m); world.sunk[m]++; --in_flight; leave(1); return continue_msg(); });
+        function_node<int, int, rejecting> rej(g, (size_t)rc, [&](int m) { enter(2, m); leave(2); return m; });
+        function_node<int, continue_msg, queueing> sink2(g, serial, sink_body(3));
+        make_edge(commit, lim.decrementer()); make_edge(rej, sink2);
+        d.add(hx::fmt("threshold=%d rej_conc=%d buffer=%s", threshold, rc, kind == 0 ? "queue_node" : kind == 1 ? "buffer_node" : "priority_queue_node")); d.publish();
+        auto run_with = [&](auto& q) {
+            make_edge(q, lim); make_edge(q, rej);
+            if (lw) { function_node<int, int, queueing_lightweight> stage(g, conc_of(c1), stage_body); make_edge(lim, stage); make_edge(stage, commit); put_all(q, false); finish(true, 1); }
+            else { function_node<int, int, queueing> stage(g, conc_of(c1), stage_body); make_edge(lim, stage); make_edge(stage, commit); put_all(q, false); finish(true, 1); }
+        };
+        if (kind == 0) { queue_node<int> q(g); run_with(q); }
+        else if (kind == 1) { buffer_node<int> q(g); run_with(q); }
+        else { priority_queue_node<int> q(g); run_with(q); }
+        SIM_CHECK(max_in_flight <= threshold, "oracle:limiter", "%d messages were forwarded by limiter_node without a decrement, threshold is %d", max_in_flight, threshold);
         break;
     }
     default: {  // async_node: a foreign thread completes the gateway later; optionally into a rejecting successor
